@@ -14,7 +14,10 @@ RULE = ('Hypothesis-generated packets (type 0..6 - binary types reached by '
         'through Packet.encode/decode/add_attachment, conformance of the '
         'frame against an independent spec-derived codec, reverse '
         'interoperation (reference encoder with other legal JSON escaping / '
-        'whitespace choices -> Packet decode), binary admission. '
+        'whitespace choices -> Packet decode), binary admission; encode() '
+        'of one packet object is repeatable, and the packet object that '
+        'decoding + add_attachment produced re-encodes to the prescribed '
+        'frames (relaying). '
         'Non-trivial: >=2 header fields besides the type (attachments, '
         'non-default namespace, id), or a bytes leaf below depth 1, or a '
         'top-level scalar payload adjacent to the header. Distinct = distinct '
@@ -114,6 +117,13 @@ def check_case(case):
                             % type(enc))
         text, atts = enc, []
 
+    # encoding is a pure function of the packet: a second encode() of the
+    # same object yields the same frames
+    enc2 = pkt.encode()
+    if not strict_eq(enc2, enc):
+        raise Violation('encode-not-repeatable', 'second encode() %r, first '
+                        '%r' % (repr(enc2)[:200], repr(enc)[:200]))
+
     # ---- oracle 2: conformance
     ref_atts = []
     ref_body = refcodec.deconstruct(data, ref_atts) if etype in (5, 6) \
@@ -165,13 +175,18 @@ def check_case(case):
         raise Violation('reference-payload', repr(r['data'])[:200])
 
     # ---- oracle 1: round trip
-    _roundtrip(P, text, atts, etype, nsp, pid, data, 'roundtrip')
+    if _norm_ns(nsp) != (nsp or '/'):
+        # decoding drops the query string of a namespace: the decoded packet
+        # re-encodes with the bare namespace
+        ctext = refcodec.header(etype, natt, _norm_ns(nsp), pid) + body
+        enc = [ctext] + list(atts) if etype in (5, 6) else ctext
+    _roundtrip(P, text, atts, etype, nsp, pid, data, 'roundtrip', enc)
 
     # ---- oracle 3: reverse interoperation
     rtext, ratts = refcodec.encode(etype, nsp, pid, data,
                                    choice=case.get('choice', 0),
                                    ws=case.get('ws', ''))
-    _roundtrip(P, rtext, ratts, etype, nsp, pid, data, 'reverse')
+    _roundtrip(P, rtext, ratts, etype, nsp, pid, data, 'reverse', enc)
     return labels
 
 
@@ -179,7 +194,7 @@ def _l(v):
     return v
 
 
-def _roundtrip(P, text, atts, etype, nsp, pid, data, what):
+def _roundtrip(P, text, atts, etype, nsp, pid, data, what, canonical=None):
     try:
         d = P.Packet(encoded_packet=text)
     except Exception as e:
@@ -211,6 +226,17 @@ def _roundtrip(P, text, atts, etype, nsp, pid, data, what):
     if not strict_eq(d.data, data):
         raise Violation(what + '-payload', '%r != %r'
                         % (repr(d.data)[:200], repr(data)[:200]))
+    if canonical is not None:
+        # relaying: the packet object that decoding produced encodes to the
+        # frames the wire format prescribes for it
+        try:
+            again = d.encode()
+        except Exception as e:
+            raise Violation(what + '-reencode-raised', repr(e))
+        if not strict_eq(again, canonical):
+            raise Violation(what + '-reencode', 're-encoding the decoded '
+                            'packet gives %r, the format prescribes %r'
+                            % (repr(again)[:200], repr(canonical)[:200]))
 
 
 def classify(case, v):
